@@ -14,7 +14,7 @@ import (
 func init() {
 	register(&Prop{
 		ID:          "C20",
-		Explanation: "Decides the synchronisation discipline (not the schedules): every access to htpasswdMap.users outside the construction set (functions whose receiver is a fresh, unpublished allocation) happens on paths where the map's rwm is held — read or write lock for loads, write lock for stores — by a must-hold lock walk (Lock/RLock gen, Unlock/RUnlock kill, deferred unlock = held to exit); no map reachable through a published htpasswdMap is updated or deleted from outside the construction set, the reload installs a map built locally by createHtpasswdMap, and Validate answers true only by comparing the presented password with the entry it read from users; the address of UserMap.m flows only into atomic.LoadPointer/StorePointer, the stored pointers are addresses of local maps that receive no update after the store, and readers only index; in both loaders the swap is reachable only on paths where every CSV read returned without error (or io.EOF for incremental reads) and, for htpasswd, createHtpasswdMap returned no error. Added during the build: reloads are totally ordered and none is skipped — the watcher package starts exactly one goroutine, file events are received at one site, every received event goes to filterEvent, filterEvent is driven only from the event loop and calls action() synchronously for every selected event (R5, partly shared with C08.R6). Round 3: a reload installs only a non-empty freshly parsed map and the reloaded map is the only basic.Validator implementation (R6). Round 4: the configured paths of the two credential files are never rewritten after loading and flow only to their loaders' constructors, emptiness tests, log lines and a short list of library calls that neither hold the file nor change the option (R7). Round 5: the action handed to the file watcher re-reads the file on every one of its paths (R8). Round 6: a validation consults the reloadable e-mail list at most once, and each lookup loads the published map exactly once (R9). Round 7: request handling keeps no state of its own between requests — no store, map update, in-place builtin, atomic/sync.Map write or pointer-receiver library call (singleflight, caches) reached from ServeHTTP targets a package-level variable, an object built at start-up, or a constructor variable captured by the handler it returned, declared in the packages implementing this property (RS; a class-wide who-may-write rule with zero instances today: a correct memoisation would be reported until reviewed). WaitForReplacement re-arms the watch as soon as os.Stat succeeds: the FileInfo (size, mtime) plays no part (under R5/C08.R6). Round 8 (class-wide, P12): in the packages implementing this property every named error result that is used at all is examined — compared with nil, returned, stored or handed to a non-formatting function — unless the code validates the value result instead (RE; zero instances today).",
+		Explanation: "Decides the synchronisation discipline (not the schedules): every access to htpasswdMap.users outside the construction set (functions whose receiver is a fresh, unpublished allocation) happens on paths where the map's rwm is held — read or write lock for loads, write lock for stores — by a must-hold lock walk (Lock/RLock gen, Unlock/RUnlock kill, deferred unlock = held to exit); no map reachable through a published htpasswdMap is updated or deleted from outside the construction set, the reload installs a map built locally by createHtpasswdMap, and Validate answers true only by comparing the presented password with the entry it read from users; the address of UserMap.m flows only into atomic.LoadPointer/StorePointer, the stored pointers are addresses of local maps that receive no update after the store, and readers only index; in both loaders the swap is reachable only on paths where every CSV read returned without error (or io.EOF for incremental reads) and, for htpasswd, createHtpasswdMap returned no error. Added during the build: reloads are totally ordered and none is skipped — the watcher package starts exactly one goroutine, file events are received at one site, every received event goes to filterEvent, filterEvent is driven only from the event loop and calls action() synchronously for every selected event (R5, partly shared with C08.R6). Round 3: a reload installs only a non-empty freshly parsed map and the reloaded map is the only basic.Validator implementation (R6). Round 4: the configured paths of the two credential files are never rewritten after loading and flow only to their loaders' constructors, emptiness tests, log lines and a short list of library calls that neither hold the file nor change the option (R7). Round 5: the action handed to the file watcher re-reads the file on every one of its paths (R8). Round 6: a validation consults the reloadable e-mail list at most once, and each lookup loads the published map exactly once (R9). Round 7: request handling keeps no state of its own between requests — no store, map update, in-place builtin, atomic/sync.Map write or pointer-receiver library call (singleflight, caches) reached from ServeHTTP targets a package-level variable, an object built at start-up, or a constructor variable captured by the handler it returned, declared in the packages implementing this property (RS; a class-wide who-may-write rule with zero instances today: a correct memoisation would be reported until reviewed). WaitForReplacement re-arms the watch as soon as os.Stat succeeds: the FileInfo (size, mtime) plays no part (under R5/C08.R6). Round 8 (class-wide, P12): in the packages implementing this property every named error result that is used at all is examined — compared with nil, returned, stored or handed to a non-formatting function — unless the code validates the value result instead (RE; zero instances today). Round 9: every record of the htpasswd file is either stored or reported as invalid (R10).",
 		NotDecided:  "interleavings themselves (this is the necessary discipline a race detector would sample); fsnotify event semantics and file-system atomicity of rewrites.",
 		Run:         runC20,
 	})
@@ -86,6 +86,8 @@ func runC20(c *Ctx) {
 	r.Rule("R7-credential-path-as-configured", "the configured paths of the htpasswd and authenticated-e-mails files are never rewritten after loading and flow only to their loader/watcher constructors (besides emptiness tests and log lines)", 2)
 	r.Rule("R8-reload-action-unconditional", "the action handed to the file watcher re-reads the file on every path (no gate on modification time, size or a previous result), and the file it re-reads is the one being watched", 2)
 	r.Rule("R9-one-snapshot-per-validation", "a validation consults the reloadable e-mail list once: no path of the validator closure calls UserMap.IsValid twice, and IsValid loads the published map once", 2)
+	r.Rule("R10-record-stored-or-reported", "every record of the htpasswd file is either stored or reported as invalid, so a file cut off inside a record is a parse failure and the previous contents stay in force (round 9)", 1)
+	runHtpasswdRecordStoredOrReported(c, "R10-record-stored-or-reported")
 	r.Rule("R4-failed-parse-keeps-old", "the swap is reachable only after error-free parsing", 2)
 
 	usersF := c.Field("R1-lock-discipline", "pkg/authentication/basic.htpasswdMap.users")
